@@ -41,15 +41,17 @@ View == <<entry, hs, live, closes, pending, segOpen, ngen>>
 
 None == [gen |-> 0, refs |-> 0, aged |-> FALSE]
 
-\* the segment: one vector field (L2), three documents, no ties for the query
+\* the segment: one vector field (L2), four documents (five vectors), no ties for the query
 vcid(n) == <<118, 48 + n>>
 VSeg == << Doc(vcid(0), << IdF(vcid(0)), Vec(fVec, <<0, 0>>, 0) >>, <<>>),
            Doc(vcid(1), << IdF(vcid(1)), Vec(fVec, <<3, 0>>, 0) >>, <<>>),
-           Doc(vcid(2), << IdF(vcid(2)), Vec(fVec, <<0, 5>>, 0) >>, <<>>) >>
+           Doc(vcid(2), << IdF(vcid(2)), Vec(fVec, <<0, 5>>, 0) >>, <<>>),
+           \* a document with two vectors (the near one is its second): the cached document -> vectors map has a list here
+           Doc(vcid(3), << IdF(vcid(3)), Vec(fVec, <<9, 9, 2, 1>>, 0) >>, <<>>) >>
 VC == ContentOfBatch(VSeg, 1026)
 Query == <<1, 0>>
 Excepts == SUBSET {0, 1}
-Eligs == { {0, 1}, {1, 2}, {0, 1, 2} }
+Eligs == { {0, 1}, {1, 3}, {2, 3}, {0, 1, 2, 3} }
 
 \* the unique top-k answer (no ties in this content)
 Expected(k, ex, filter, elig) ==
